@@ -332,3 +332,13 @@ def _backend_agreement(ctx: Context) -> None:
         rep.ob("C18.R6", f"backend|{op}|{kind}", len(vals) == 1 and len(by) >= 2, "httpcore/_backends/", f"{op} / {kind}: {by}" + ("" if len(vals) == 1 else
                " - the sync and async APIs raise different exception classes for the same failure"))
     rep.floor("C18.R6", "backend operation x failure kind cells", n, 8)
+
+_core_run = run
+
+
+def run(ctx: Context) -> None:  # noqa: F811
+    _core_run(ctx)
+    from . import backend
+
+    ctx.rep.rule('C18.R7', "all real backends answer the same extra-info keys and probe readability on the transport's OS socket, TLS or not")
+    backend.extra_info_agreement(ctx, 'C18.R7')
